@@ -98,6 +98,11 @@ def random_op(rng: random.Random, kinds: list[str], nnodes: int, nvars: int, big
         op.update(op="block", maa=rng.random() < 0.6, size=rng.choice(sizes), optsrc=False, exact=rng.random() < 0.3)
     elif k == "scc":
         op.update(maa=rng.random() < 0.6)
+    elif k == "find":
+        op.update(target=[rng.choice([0, 1, 2, 2]) for _ in range(nvars)])
+    elif k == "cmp":
+        sub = [random_op(rng, ["exp", "bfs", "dfs", "min", "skipmin", "skiprem"], 3, nvars) for _ in range(rng.randint(0, 3))]
+        op.update(cmpops=sub)
     return op
 
 
@@ -112,7 +117,19 @@ class RandomHistory:
 
     def __call__(self, sd, step):
         if step < self.steps:
-            return random_op(self.rng, self.kinds, len(sd), sd.network.variable_count(), self.big)
+            op = random_op(self.rng, self.kinds, len(sd), sd.network.variable_count(), self.big)
+            if op["op"] == "find" and self.rng.random() < 0.7:
+                # query an existing node's space, or a space next to it
+                names = list(sd.network.variable_names())
+                sp = sd.node_data(self.rng.randrange(len(sd)))["space"]
+                t = [int(sp[nm]) if nm in sp else 2 for nm in names]
+                r = self.rng.random()
+                if r < 0.3 and any(x != 2 for x in t):
+                    t[self.rng.choice([i for i, x in enumerate(t) if x != 2])] = 2      # proper superset
+                elif r < 0.6 and any(x == 2 for x in t):
+                    t[self.rng.choice([i for i, x in enumerate(t) if x == 2])] = self.rng.randint(0, 1)   # proper subset
+                op["target"] = t
+            return op
         j = step - self.steps
         if j < len(self.tail):
             return dict(self.tail[j])
